@@ -212,6 +212,34 @@ def wl_reject(ctx, idx, rng):
         a, b = sig[:cut], sig[cut:]
         dt = sig.dt
     ctx.bucket("reject", kind, clsname)
+    # sequence variant: the pieces were first joined successfully (so any derived state of theirs has been computed), then one
+    # piece is changed in place through its public setters, then the join is tried again
+    if clsname != "Signal" and kind in ("fc_plus", "fc_minus", "freq_gap", "freq_overlap") and rng.random() < 0.5:
+        with probes.quiet():
+            m_ = monitors.meta_of(sig)
+            resolvable = monitors.label_tol(m_["fc"], m_["bw"], nchan) <= m_["bw"] / 1000
+        if resolvable:
+            sgn = 1 if kind in ("fc_plus", "freq_gap") else -1
+            if kind.startswith("fc"):
+                x_, y_ = sig[:cut], sig[cut:]
+                ax = {}
+            else:
+                c_ = int(rng.integers(1, nchan))
+                x_, y_ = sig[:, :c_], sig[:, c_:]
+                ax = {"axis": "freq"}
+            ok1, e1 = ctx.call("roundtrip", pb.concatenate, [x_, y_], where="first join of the untouched pieces", **ax)
+            if e1 is None:
+                with probes.quiet():
+                    y_.center_freq = y_.center_freq + sgn * k * y_.chan_bw
+                expect_refusal(ctx, o, [x_, y_], dict(feats, channels=k, via_setter=True), ValueError,
+                               f"second piece moved by {sgn * k:+d} channels through its center_freq setter after a first successful join", **ax)
+                if nchan % 2 == 0 and not ax:
+                    with probes.quiet():
+                        y2 = sig[cut:]
+                        _ = y2.channel_freqs
+                        y2.freq_align = {"bottom": "top", "top": "bottom", "center": "top"}[y2.freq_align]
+                    expect_refusal(ctx, o, [x_, y2], dict(feats, via_setter="freq_align"), ValueError,
+                                   "second piece re-aligned through its freq_align setter (labels move by half / one channel)")
     if kind in ("shift_plus", "shift_minus"):
         sgn = 1 if kind == "shift_plus" else -1
         with probes.quiet():
